@@ -1608,3 +1608,48 @@ def rf159(run):
     run.control(rule, 'unsigned conversion used by the scanner', us >= 1)
     run.ob(rule, ('scanner',), n == 0, {'functions reachable from MIR_scan_string': len(reach), 'unsigned conversions': us, 'signed conversions': n})
     return 1
+
+
+# ---------------------------------------------------------------------------------------------
+# RF172: the three fields of an lref item are printed independently
+# ---------------------------------------------------------------------------------------------
+
+def rf172(run):
+    import re
+    from lib import printexec as PE
+    rule = 'RF172'
+    run.rule(rule, 'MIR_output_item, label reference data: the branch is executed abstractly for the four shapes (second label present or not) × '
+                   '(displacement zero or not).  The text is `lref L<n>[, L<m>][, <disp>]`: the displacement appears whenever it is non-zero, '
+                   'with or without a second label (the scanner takes a number after the first label as the displacement).  Printing it only '
+                   'next to a second label drops it from `lref L, 24`')
+    tu = run.tu('mir')
+    f = tu.func('MIR_output_item')
+    run.functions_analysed.add(('mir', f.name))
+    kinds = dict(tu.enum_by_member('MIR_lref_data_item')[1])
+    sites = [x for x in f.walk() if x['k'] == 'IfStmt' and 'MIR_lref_data_item' in F.src(x['c'][0])]
+    if not sites:
+        raise F.AnalysisBroken('MIR_output_item: the branch for lref data was not found')
+    body = sites[0]['c'][1]
+    n = 0
+    for lab2 in (0, 1):
+        for disp in (0, 24, -8):
+            ex = PE.PrintExec(tu, {}, {}, {})
+            ex.concrete_ints = True
+            env = {'item->item_type': kinds['MIR_lref_data_item'], 'item->u.lref_data': 2, 'lref_data': 2,
+                   'lref_data->name': 0, 'item->u.lref_data->name': 0,
+                   'lref_data->label': 3, 'lref_data->label->ops[0].u.i': 11, 'lref_data->label->ops[0].mode': 0,
+                   'lref_data->label2': 4 if lab2 else 0, 'lref_data->label2->ops[0].u.i': 12, 'lref_data->label2->ops[0].mode': 0,
+                   'lref_data->disp': disp}
+            try:
+                ex.run(body, env)
+            except F.AnalysisBroken as e_:
+                raise F.AnalysisBroken('MIR_output_item (lref): %s' % e_)
+            txt = ' '.join(ex.text().split())
+            want = 'lref L11' + (', L12' if lab2 else '') + (', %d' % disp if disp else '')
+            ok = txt == want
+            n += 1
+            run.ob(rule, (lab2, disp), ok, {'second label': bool(lab2), 'disp': disp, 'text': txt, 'expected': want})
+            if not ok:
+                run.violation(rule, f, 'text of an lref item', 'MIR_output_item prints an lref item with %s second label and displacement %d as `%s`, '
+                              'expected `%s`: the module read back refers to another address' % ('a' if lab2 else 'no', disp, txt, want), line=sites[0]['l'])
+    return n
